@@ -109,6 +109,22 @@ do_send(int i, int blocking, int hdrpipe)
 	env_aio_submit(&uaio[i]);
 	bus0_sock_send(&sock, &uaio[i]);
 	CHECK(KDONE(i), "BUS send never blocks: it has completed when the call returns");
+#ifdef KF_BUS_NONBLOCK_EAGAIN
+	/* known finding F6b excluded: a non-blocking BUS send is refused with
+	 * NNG_ETIMEDOUT (-> NNG_EAGAIN).  With the finding excluded the send must at
+	 * least fail cleanly: nothing offered to any peer, message left with the caller. */
+	if (!blocking) {
+		CHECK(KRESULT(i) == NNG_ETIMEDOUT, "known finding F6b: non-blocking BUS send reports EAGAIN");
+		CHECK(nni_aio_get_msg(&uaio[i]) == umsg[i], "C03: failed send leaves the message with the caller");
+		for (int p = 0; p < MAXP; p++)
+			if (before[p])
+				CHECK(count_on_pipe(p, umsg_id[i]) == 0, "a refused send offers nothing to any peer");
+		nni_msg_free(umsg[i]);
+		nni_aio_set_msg(&uaio[i], NULL);
+		monitor();
+		return;
+	}
+#endif
 	CHECK(KRESULT(i) == 0, "BUS send is accepted in every state, also when submitted non-blocking");
 	CHECK(nni_aio_get_msg(&uaio[i]) == NULL, "accepted send: message owned by the library");
 	for (int p = 0; p < MAXP; p++) {
